@@ -134,7 +134,9 @@ def one_exec(cfg, order, fail, abort_at):
 
 # ---- index-level push / fetch (closed requests built by the library itself) ----------------
 
-PUSH_TREES = {"d": {"a": "y", "b/c": "z"}, "e": {"k": "y", "m": "w"}}   # share content y
+# share content y; d also lists two names that differ only in Unicode normalisation form and a dot / no-dot pair
+PUSH_TREES = {"d": {"a": "y", "b/c": "z", "caf\u00e9": "x", "cafe\u0301": "v", ".h": "lf", "h": "crlf"},
+              "e": {"k": "y", "m": "w"}}
 
 
 def push_exec(cfg):
@@ -294,6 +296,9 @@ def run_case(case):
         # 2^1301 subsets are out of reach: no failure, the first / 1000th / 1001st / last file, the directory
         fl = sorted(files_of_trees(trees))
         fail_sets = [(), (fl[0],), (fl[999],), (fl[1000],), (fl[-1],), (TREE_OID[trees[0]],)]
+    if cfg["scenario"] == "special":
+        # 2^20 subsets are out of reach: no failure, every single object
+        fail_sets = [()] + [(o,) for o in uploads]
     for fail in fail_sets:
         viol, info = one_exec(cfg, order, list(fail), None)
         if not fail:
@@ -377,6 +382,10 @@ def configs(tier):
             for request in ("closed", "expanded"):
                 yield {"scenario": s, "dest": dest, "index": False, "request": request,
                        "initial": "empty", "hash_name": "md5-dos2unix"}
+    # special file names (leading dots, "..", backslash, store suffixes, blanks, NFC / NFD twins, prefix siblings)
+    for dest in ("base", "local"):
+        for request in ("closed", "expanded"):
+            yield {"scenario": "special", "dest": dest, "index": False, "request": request, "initial": "empty"}
     # one directory with 1300 files: crosses every batching / paging constant
     for dest in ("base", "local"):
         for index in (False, True):
